@@ -378,6 +378,22 @@ def run_rust(binary, sels):
     return [json.loads(x) for x in run_native(binary, [json.dumps(s) for s in sels])]
 
 
+def extract_ts_text_only():
+    """the runtime function texts and split keys only (no shape requirements): enough to evaluate them in node"""
+    src = read_repo(F_TS)
+    T = {}
+    for name in ("FIRST_SPLIT_KEY", "SECOND_SPLIT_KEY", "THIRD_SPLIT_KEY"):
+        m = need(re.search(r"export const %s = '([^']*)';" % name, src), name)
+        T[name] = m.group(1)
+    i = src.find("function getArgumentValueChunk(argumentValue: ArgumentValue): string {")
+    j = src.find("function getNetworkResponseKey(\n  astNode: NormalizationLinkedField | NormalizationScalarField,")
+    if i < 0 or j < 0:
+        raise Inconclusive("encoding not regenerable: runtime key functions not found in cache.ts")
+    T["fn_text"] = src[i:src.index("\n}\n", i) + 3]
+    T["key_fn_text"] = src[j:src.index("\n}\n", j) + 3]
+    return T
+
+
 GRAPHQL_NAME = re.compile(r"^[_A-Za-z][_0-9A-Za-z]*$")
 
 PROBES = [
@@ -518,6 +534,9 @@ def psweep(name, items, build, portfolio=False, nproc=14):
     return total
 
 
+PROBES_IN_KNOWN_CLASS = [PROBES[4], PROBES[8]]      # "a b" (sanitised), "\u00e9" (sanitised): string-sanitisation class
+
+
 def main():
     t0 = time.time()
     T_ = tier()
@@ -528,17 +547,44 @@ def main():
     known = {k: t for kind, k, t in kf if kind == "known" and k}
     X = T = None
     os.makedirs(os.path.join(REPLAYS, PROP), exist_ok=True)
+    def replay(sj_list, what, tag):
+        rp = os.path.join(REPLAYS, PROP, tag)
+        os.makedirs(rp, exist_ok=True)
+        with open(os.path.join(rp, "input.jsonl"), "w") as f:
+            for sj in sj_list:
+                f.write(json.dumps(sj) + "\n")
+        with open(os.path.join(rp, "REPLAY.md"), "w") as f:
+            f.write("Property C12: %s\nRun: bash %s/replay.sh   (prints the compiler's response keys for the selections in input.jsonl, computed by the real crates)\n" % (what, rp))
+        with open(os.path.join(rp, "replay.sh"), "w") as f:
+            f.write("#!/bin/bash\n%s < %s/input.jsonl\nexit 1\n" % (os.path.join(os.path.dirname(REPLAYS), "build", "native", "release", "alias_driver"), rp))
+        return rp
+
     try:
+        binary = build_native("alias_driver")
+        # ---- stage 0 (not solver-decided, a guard that does not depend on the translator): the probe inputs of the
+        # translator validation are run through both real implementations; a compiler/runtime disagreement or an illegal
+        # key on a probe outside the known classes is a reproduced violation whatever the source now looks like.
+        T0 = extract_ts_text_only()
+        rk = run_rust(binary, PROBES)
+        tk = run_ts(T0, [to_ts_ast(p) for p in PROBES])
+        for pr, r_nat, t_nat in zip(PROBES, rk, tk):
+            if pr in PROBES_IN_KNOWN_CLASS:
+                continue
+            if r_nat != t_nat:
+                violations.append(("compiler and runtime disagree on probe %s: %r vs %r" % (json.dumps(pr), r_nat, t_nat), replay([pr], "probe disagreement", "C12_probe_agree")))
+            elif not GRAPHQL_NAME.match(r_nat):
+                violations.append(("illegal key on probe %s: %r" % (json.dumps(pr), r_nat), replay([pr], "probe illegal key", "C12_probe_legal")))
+        if len(set(rk)) != len(rk):
+            violations.append(("two different probes get the same key: %r" % (rk,), replay(PROBES, "probe collision", "C12_probe_inj")))
+        samples.append({"native_probe_agreement": [json.dumps(PROBES[5]), rk[5], tk[5]]})
+
         X = extract_rust()
         T = extract_ts()
         for lo, hi in X["str_keep"]:
             if hi > 127:
                 raise Inconclusive("encoding not regenerable: kept character class is not ASCII")
-        binary = build_native("alias_driver")
 
         # ---- translator validation: concrete probes through the encoding (solver) and through both real implementations
-        rk = run_rust(binary, PROBES)
-        tk = run_ts(T, [to_ts_ast(p) for p in PROBES])
         BV = {"args": 4, "namelen": 12, "strlen": 4, "objlen": 2}
         for pr, r_nat, t_nat in zip(PROBES, rk, tk):
             q = Query("C12_validate", simple=True)
@@ -549,18 +595,6 @@ def main():
                 raise Inconclusive("translator validation failed on %s: encoding disagrees with the real code (rust %r, ts %r)" % (json.dumps(pr), r_nat, t_nat))
             n_valid += 1
         samples.append({"translator_validation": [json.dumps(PROBES[1]), rk[1], tk[1]]})
-
-        def replay(sj_list, what, tag):
-            rp = os.path.join(REPLAYS, PROP, tag)
-            os.makedirs(rp, exist_ok=True)
-            with open(os.path.join(rp, "input.jsonl"), "w") as f:
-                for sj in sj_list:
-                    f.write(json.dumps(sj) + "\n")
-            with open(os.path.join(rp, "REPLAY.md"), "w") as f:
-                f.write("Property C12: %s\nRun: bash %s/replay.sh   (prints the compiler's response keys for the selections in input.jsonl, computed by the real crates)\n" % (what, rp))
-            with open(os.path.join(rp, "replay.sh"), "w") as f:
-                f.write("#!/bin/bash\n%s < %s/input.jsonl\nexit 1\n" % (binary, rp))
-            return rp
 
         def decide(qname, items, build, class_preds, replay_fn, what):
             listed = [k for k in class_preds if k in known]
